@@ -223,6 +223,7 @@ static inline size_t toggle_short_count(const struct user_input *arg, const stru
 void toggle_update_value(struct otoggle *self, const struct user_input *arg)
 __CPROVER_requires(nitro_exc == 0 && O_OBJ_OR_OK(toggle_update_value, self) && O_OBJ_OR_ROK(toggle_update_value, arg) && UI_WF(arg) && BASE_WF_V(self->b))
 __CPROVER_requires(M_TOGGLE(self, &arg->arg_) && self->given_ >= 0 && self->given_ < (1 << 30) && arg->arg_.len < (1 << 20))
+__CPROVER_requires(self->b.dirty_ || self->given_ == 0)     /* state invariant between prepare() and check(): a toggle that was not touched counts 0 */
 __CPROVER_requires(TOGGLE_KF_PRE(self, &arg->arg_))
 __CPROVER_assigns(self->given_, self->b.dirty_, nitro_exc, g_at_next, g_at_hits, g_at_other)
 __CPROVER_ensures(nitro_exc == 0 || nitro_exc == EXC_PARSING_ERROR)
@@ -230,7 +231,6 @@ __CPROVER_ensures(T_HAS_VALUE(&arg->arg_) ==> nitro_exc != 0)                   
 __CPROVER_ensures((!T_HAS_VALUE(&arg->arg_) && !TOGGLE_POSITIVE(self, &arg->arg_) && !self->reversable_) ==> nitro_exc != 0)   /*@ no-_form_only_for_reversible_toggles */
 __CPROVER_ensures((!T_HAS_VALUE(&arg->arg_) && !TOGGLE_POSITIVE(self, &arg->arg_) && __CPROVER_old(self->b.dirty_) && __CPROVER_old(self->given_) > 0) ==> nitro_exc != 0)   /*@ reversal_after_a_positive_spelling_is_rejected */
 __CPROVER_ensures((!T_HAS_VALUE(&arg->arg_) && TOGGLE_POSITIVE(self, &arg->arg_) && __CPROVER_old(self->b.dirty_) && __CPROVER_old(self->given_) == 0) ==> nitro_exc != 0)   /*@ positive_spelling_after_a_reversal_is_rejected */
-__CPROVER_ensures(nitro_exc != 0 ==> TOGGLE_UNCHANGED(self))                                         /*@ rejected_token_changes_nothing */
 __CPROVER_ensures(nitro_exc != 0 ==> (T_HAS_VALUE(&arg->arg_) || (!TOGGLE_POSITIVE(self, &arg->arg_) && (!self->reversable_ || (__CPROVER_old(self->b.dirty_) && __CPROVER_old(self->given_) > 0))) ||
       (TOGGLE_POSITIVE(self, &arg->arg_) && __CPROVER_old(self->b.dirty_) && __CPROVER_old(self->given_) == 0)))   /*@ rejected_only_for_a_documented_reason */
 __CPROVER_ensures((nitro_exc == 0 && !TOGGLE_POSITIVE(self, &arg->arg_)) ==> (self->given_ == 0 && self->b.dirty_ && self->reversable_ && !T_HAS_VALUE(&arg->arg_)))   /*@ no-_form_yields_0 */
@@ -248,7 +248,6 @@ __CPROVER_requires(nitro_exc == 0 && O_OBJ_OR_OK(toggle_check, self))
 __CPROVER_assigns(self->given_, self->b.dirty_, nitro_exc, g_env_name)
 __CPROVER_ensures(nitro_exc == 0 || nitro_exc == EXC_PARSING_ERROR)
 __CPROVER_ensures(__CPROVER_old(self->b.dirty_) ==> (nitro_exc == 0 && TOGGLE_UNCHANGED(self)))        /*@ command_line_wins */
-__CPROVER_ensures(nitro_exc != 0 ==> TOGGLE_UNCHANGED(self))                                          /*@ a_failed_check_leaves_no_trace */
 #define TC_ENV (!__CPROVER_old(self->b.dirty_) && self->b.env_.len != 0 && g_env_value.len != 0)
 __CPROVER_ensures(TC_ENV ==> ((nitro_exc != 0) == (!WORD_TRUTHY(&g_env_value) && !WORD_FALSY(&g_env_value))))   /*@ unparsable_environment_word_is_rejected */
 __CPROVER_ensures((TC_ENV && nitro_exc == 0) ==> (self->given_ == (WORD_TRUTHY(&g_env_value) ? 1 : 0) && self->b.dirty_ && g_env_name == self->b.env_.id))   /*@ environment_word_gives_1_or_0_and_counts_as_provided */
@@ -264,7 +263,6 @@ __CPROVER_requires(nitro_exc == 0 && O_OBJ_OR_OK(option_update_value, self) && O
 __CPROVER_assigns(self->value_has, self->value_, self->b.dirty_, nitro_exc)
 __CPROVER_ensures((__CPROVER_old(self->value_has) != 0) == (nitro_exc != 0))                                /*@ single_valued_option_given_twice_is_rejected */
 __CPROVER_ensures(nitro_exc == 0 || nitro_exc == EXC_PARSING_ERROR)
-__CPROVER_ensures(nitro_exc != 0 ==> (self->value_.id == __CPROVER_old(self->value_.id) && self->b.dirty_ == __CPROVER_old(self->b.dirty_) && self->value_has))
 __CPROVER_ensures(nitro_exc == 0 ==> (self->value_has && self->b.dirty_ && self->value_.id == VALUE_ID_OF(&arg->arg_)));   /*@ holds_the_given_value_byte_for_byte */
 void option_prepare(struct ooption *self)
 __CPROVER_requires(nitro_exc == 0 && O_OBJ_OR_OK(option_prepare, self))
@@ -414,7 +412,7 @@ __CPROVER_ensures(nitro_exc == 0 && !__CPROVER_return_value);                   
 #define TG_LETTERS (((self->n_toggles > 0 && M_LETTER(&TG(0)->b, IN)) ? LCOUNT(&TG(0)->b, IN) : 0) + ((self->n_toggles > 1 && M_LETTER(&TG(1)->b, IN)) ? LCOUNT(&TG(1)->b, IN) : 0))
 /* the declared toggles are unambiguous: distinct names, distinct letters (what check_parser_consistency and the declaration functions guarantee) */
 #define TOGGLES_DISTINCT (self->n_toggles < 2 || (TG(0)->b.name_.id != TG(1)->b.name_.id && (TG(0)->b.short_.len == 0 || TG(1)->b.short_.len == 0 || TG(0)->b.short_.b0 != TG(1)->b.short_.b0)))
-#define TG_RANGE(k) (self->n_toggles <= (k) || (BASE_WF_V(TG(k)->b) && TG(k)->given_ >= 0 && TG(k)->given_ < (1 << 30) && TOGGLE_KF_PRE(TG(k), IN)))
+#define TG_RANGE(k) (self->n_toggles <= (k) || (BASE_WF_V(TG(k)->b) && TG(k)->given_ >= 0 && TG(k)->given_ < (1 << 30) && (TG(k)->b.dirty_ || TG(k)->given_ == 0) && TOGGLE_KF_PRE(TG(k), IN)))
 #define TG_SAME(k) (TG(k)->given_ == __CPROVER_old(TG(k)->given_) && TG(k)->b.dirty_ == __CPROVER_old(TG(k)->b.dirty_))
 #define TG_POS(k) TOGGLE_POSITIVE(TG(k), IN)
 #define TG_CONFLICT(k) (TGM(k) && ((!TG_POS(k) && (!TG(k)->reversable_ || (__CPROVER_old(TG(k)->b.dirty_) && __CPROVER_old(TG(k)->given_) > 0))) || (TG_POS(k) && __CPROVER_old(TG(k)->b.dirty_) && __CPROVER_old(TG(k)->given_) == 0)))
@@ -433,6 +431,7 @@ __CPROVER_ensures(nitro_exc == 0 ==> (__CPROVER_return_value == (TGM(0) || TGM(1
 __CPROVER_ensures((nitro_exc == 0 && TGM(0)) ==> TG_UPDATED(0))                                                              /*@ every_matching_toggle_is_counted */
 __CPROVER_ensures((nitro_exc == 0 && TGM(1)) ==> TG_UPDATED(1))
 __CPROVER_ensures((nitro_exc == 0 && __CPROVER_return_value && T_SHORT(IN)) ==> TG_LETTERS == T_NLETTERS(IN))                 /*@ every_letter_of_a_bundle_is_a_declared_toggle */
+__CPROVER_ensures(nitro_exc == 0 ==> ((self->n_toggles <= 0 || TG(0)->b.dirty_ || TG(0)->given_ == 0) && (self->n_toggles <= 1 || TG(1)->b.dirty_ || TG(1)->given_ == 0)))   /*@ untouched_toggles_still_count_0 */
 __CPROVER_ensures((self->n_toggles > 0 && !TGM(0)) ==> TG_SAME(0))                                                           /*@ other_toggles_untouched */
 __CPROVER_ensures((self->n_toggles > 1 && !TGM(1)) ==> TG_SAME(1));
 /* ---- prepare / validate / consistency ---- */
@@ -670,7 +669,7 @@ static inline nbool parse_state_ok_v(struct oparser p, struct ostr t)
     nbool ok = 1;
     for (int k = 0; k < NITRO_K; ++k)
     {
-        ok = ok && ((size_t)k >= p.n_toggles || (p.toggles[k].given_ >= 0 && p.toggles[k].given_ < (1 << 30)));
+        ok = ok && ((size_t)k >= p.n_toggles || (p.toggles[k].given_ >= 0 && p.toggles[k].given_ < (1 << 30) && (p.toggles[k].b.dirty_ || p.toggles[k].given_ == 0)));
         ok = ok && ((size_t)k >= p.n_mopts || p.mopts[k].value_.count < OSTR_MAXLEN);
 #if KF_toggle_named_no && !(NITRO_KF_REGION && defined(NITRO_KF_SEL_toggle_named_no))
         ok = ok && ((size_t)k >= p.n_toggles || !(t.name_has_no && SP_NAMED(t) && t.name_sub2_id == p.toggles[k].b.name_.id));
@@ -723,6 +722,7 @@ __CPROVER_ensures((nitro_exc != 0) == (g_step.err != 0))                        
 __CPROVER_ensures(nitro_exc == 0 ==> pstate_eq_v(pstate_of_v(*self, *mode_ref, *positionals_ref), g_step.s, *self))         /*@ the_token_has_exactly_its_documented_effect */
 __CPROVER_ensures(nitro_exc == 0 ==> g_step.cls != CLS_NONE)                                                               /*@ every_token_is_accounted_for */
 __CPROVER_ensures(nitro_exc == 0 ==> *it_ref == __CPROVER_old(*it_ref) + (size_t)g_step.advance)                                              /*@ consumes_the_next_token_only_as_an_option_value */
+__CPROVER_ensures(nitro_exc == 0 ==> ((self->n_toggles <= 0 || self->toggles[0].b.dirty_ || self->toggles[0].given_ == 0) && (self->n_toggles <= 1 || self->toggles[1].b.dirty_ || self->toggles[1].given_ == 0)))   /*@ state_invariant_kept */
 __CPROVER_ensures(nitro_exc == 0 ==> positionals_ref->count <= self->allowed_positionals_);                                 /*@ never_more_positionals_than_accepted */
 
 /* parse(), part 3: value sources are ranked (C03), `provided` is computed, the result object is built */
@@ -782,10 +782,10 @@ __CPROVER_ensures(nitro_exc != 0 ==> (self->short_.id == __CPROVER_old(self->sho
 __CPROVER_ensures(nitro_exc == 0 ==> (self->short_.id == short_name->id && self->short_.len == 1 && self->short_.b0 == short_name->b0 && __CPROVER_return_value == self));
 
 /* std::map<std::string, T> seen through ONE key - the name being declared: does the map hold it, and the object mapped to it */
-struct omapk { nbool has; struct obase elem; };
+struct omapk { nbool has; nbool nonempty; struct obase elem; };    /* nonempty: the map holds some key (has ==> nonempty) */
 struct oemplaced { struct obase *first; nbool second; };
 extern const struct obase *g_ord_obj;                        /* witness: an option object whose entries in order_ are counted */
-struct oorder { size_t count; const struct obase *last; size_t w_cnt; };     /* std::vector<base*> order_ */
+struct oorder { size_t count; const struct obase *last; size_t w_cnt; const struct obase *w_elem; };     /* std::vector<base*> order_: length, last entry, number of entries naming g_ord_obj, entry number g_w */
 #ifndef NITRO_G
 #define NITRO_G 2          /* groups of a parser in the verification of the declaration functions: the group declared into and one other (bound) */
 #endif
@@ -794,16 +794,17 @@ struct ogroup { const struct oparser2 *parser_; struct omapk options_, multi_opt
 struct oparser2 { size_t n_groups; struct ogroup groups[NITRO_G]; };         /* std::map<std::string, group> groups_ */
 extern nbool g_any;                                          /* whether the name is declared anywhere in g_holder on entry (tied by a precondition) */
 extern const struct oparser2 *g_holder;                      /* the parser whose groups_ holds the group being declared into */
-static inline void omapk_init(struct omapk *m) { m->has = 0; }
+static inline void omapk_init(struct omapk *m) { m->has = 0; m->nonempty = 0; }
+static inline nbool omapk_empty(const struct omapk *m) { return !m->nonempty; }
 static inline size_t omapk_count(const struct omapk *m, const struct ostr *name) { return m->has ? 1 : 0; }
-static inline void omapk_merge(struct omapk *tmp, const struct omapk *from) { if (from->has) tmp->has = 1; }     /* for (e : from) tmp.emplace(e.first, &e.second) */
+static inline void omapk_merge(struct omapk *tmp, const struct omapk *from) { if (from->has) tmp->has = 1; if (from->nonempty) tmp->nonempty = 1; }     /* for (e : from) tmp.emplace(e.first, &e.second) */
 static inline struct oemplaced omapk_emplace(struct omapk *m, const struct ostr *name, const struct ostr *description)
 {
     struct oemplaced r; r.first = &m->elem; r.second = !m->has;
-    if (!m->has) { m->has = 1; m->elem.name_ = *name; m->elem.short_.len = 0; m->elem.env_.len = 0; m->elem.dirty_ = 0; }    /* T(name, description) */
+    if (!m->has) { m->has = 1; m->nonempty = 1; m->elem.name_ = *name; m->elem.short_.len = 0; m->elem.env_.len = 0; m->elem.dirty_ = 0; }    /* T(name, description) */
     return r;
 }
-static inline void oorder_push_back(struct oorder *o, const struct obase *e) { if (o->count != ~(size_t)0) o->count = o->count + 1; o->last = e; if (e == g_ord_obj && o->w_cnt != ~(size_t)0) o->w_cnt = o->w_cnt + 1; }
+static inline void oorder_push_back(struct oorder *o, const struct obase *e) { if (o->count == g_w) o->w_elem = e; if (o->count != ~(size_t)0) o->count = o->count + 1; o->last = e; if (e == g_ord_obj && o->w_cnt != ~(size_t)0) o->w_cnt = o->w_cnt + 1; }
 #define GRP_HAS(P, g) ((P)->n_groups > (g) && ((P)->groups[g].options_.has || (P)->groups[g].multi_options_.has || (P)->groups[g].toggles_.has))
 #define GRP_CNT(P, g) ((P)->n_groups > (g) ? ((P)->groups[g].options_.has ? 1 : 0) + ((P)->groups[g].multi_options_.has ? 1 : 0) + ((P)->groups[g].toggles_.has ? 1 : 0) : 0)
 #define NAME_ANY(P) (GRP_HAS(P, 0) || GRP_HAS(P, 1))
@@ -842,7 +843,7 @@ __CPROVER_ensures(((g_any != 0) && !__CPROVER_old(self->member.has)) ==> (nitro_
 __CPROVER_ensures(__CPROVER_old(self->member.has) ==> (nitro_exc == 0 && __CPROVER_return_value == &self->member.elem && self->member.has && self->member.elem.name_.id == __CPROVER_old(self->member.elem.name_.id) && \
                   self->order_.count == __CPROVER_old(self->order_.count) && self->order_.w_cnt == __CPROVER_old(self->order_.w_cnt)))   /*@ same_name_same_kind_same_group_returns_the_identical_object */ \
 __CPROVER_ensures(!(g_any != 0) ==> (nitro_exc == 0 && __CPROVER_return_value == &self->member.elem && self->member.has && self->member.elem.name_.id == name->id && self->member.elem.short_.len == 0 && \
-                  (__CPROVER_old(self->order_.count) != ~(size_t)0 ==> self->order_.count == __CPROVER_old(self->order_.count) + 1) && self->order_.last == &self->member.elem))   /*@ a_new_name_is_declared_and_listed_last */ \
+                  (__CPROVER_old(self->order_.count) != ~(size_t)0 ==> self->order_.count == __CPROVER_old(self->order_.count) + 1) && self->order_.last == &self->member.elem && (__CPROVER_old(self->order_.count) == g_w ==> self->order_.w_elem == &self->member.elem)))   /*@ a_new_name_is_declared_and_listed_last */ \
 __CPROVER_ensures((!(g_any != 0) && g_ord_obj == &self->member.elem && __CPROVER_old(self->order_.w_cnt) == 0) ==> self->order_.w_cnt == 1)   /*@ listed_exactly_once */
 GRP_DECL_CONTRACT(option, options_);
 GRP_DECL_CONTRACT(multi_option, multi_options_);
@@ -895,6 +896,34 @@ __CPROVER_ensures(nitro_exc == 0 && __CPROVER_return_value == s)
 __CPROVER_ensures(!s->bad)                                                                           /*@ no_line_exceeds_the_width_unless_a_single_unbreakable_word_forces_it */
 __CPROVER_ensures(s->words == g_words_n && (g_w < g_words_n ==> s->w_id == g_words_w_id))   /*@ every_word_is_written_exactly_once_in_order */
 __CPROVER_ensures(s->width == 0);                                                                    /*@ leaves_no_pending_width_behind */
+
+/* ---- group::usage: every entry of order_ is formatted exactly once, in order ---- */
+struct ousage_stream { size_t fmt_calls; const struct obase *fmt_w; size_t header_pieces; };    /* the target stream seen through what was written: calls of format(), the option formatted by call number g_w */
+const struct obase *oorder_at(const struct oorder *o, size_t i)
+__CPROVER_requires(nitro_exc == 0 && __CPROVER_r_ok(o, sizeof(*o)) && i < o->count)
+__CPROVER_assigns()
+__CPROVER_ensures(nitro_exc == 0 && (i == g_w ==> __CPROVER_return_value == o->w_elem));
+void base_format(const struct obase *self, struct ousage_stream *o)           /* virtual base::format(std::ostream&): one block of text per call */
+__CPROVER_requires(nitro_exc == 0 && __CPROVER_rw_ok(o, sizeof(*o)))
+__CPROVER_assigns(o->fmt_calls, o->fmt_w)
+__CPROVER_ensures(nitro_exc == 0 && (__CPROVER_old(o->fmt_calls) != ~(size_t)0 ==> o->fmt_calls == __CPROVER_old(o->fmt_calls) + 1) && (__CPROVER_old(o->fmt_calls) == g_w ==> o->fmt_w == self) && (__CPROVER_old(o->fmt_calls) != g_w ==> o->fmt_w == __CPROVER_old(o->fmt_w)));
+static inline void ous_header(struct ousage_stream *o) { if (o->header_pieces != ~(size_t)0) o->header_pieces = o->header_pieces + 1; }
+#define GROUP_EMPTY(g) (!(g)->options_.nonempty && !(g)->multi_options_.nonempty && !(g)->toggles_.nonempty)
+nbool group_empty(const struct ogroup *self)
+__CPROVER_requires(nitro_exc == 0 && O_OBJ_OR_ROK(group_empty, self))
+__CPROVER_assigns()
+__CPROVER_ensures(nitro_exc == 0 && (__CPROVER_return_value != 0) == GROUP_EMPTY(self));
+#define NITRO_LOOP_group_usage_1 \
+  __CPROVER_assigns(i_, s->fmt_calls, s->fmt_w) \
+  __CPROVER_loop_invariant(i_ <= self->order_.count && s->fmt_calls == i_ && (g_w < i_ ==> s->fmt_w == self->order_.w_elem)) \
+  __CPROVER_decreases(self->order_.count - i_)
+void group_usage(const struct ogroup *self, struct ousage_stream *s)
+__CPROVER_requires(nitro_exc == 0 && O_OBJ_OR_ROK(group_usage, self) && O_OBJ_OR_OK(group_usage, s) && s->fmt_calls == 0 && self->order_.count < ~(size_t)0)
+__CPROVER_assigns(*s)
+__CPROVER_ensures(nitro_exc == 0)
+__CPROVER_ensures(GROUP_EMPTY(self) ==> (s->fmt_calls == 0 && s->header_pieces == __CPROVER_old(s->header_pieces)))             /*@ an_empty_group_prints_nothing */
+__CPROVER_ensures(!GROUP_EMPTY(self) ==> s->fmt_calls == self->order_.count)                                                    /*@ every_listed_option_is_formatted_exactly_once */
+__CPROVER_ensures((!GROUP_EMPTY(self) && g_w < self->order_.count) ==> s->fmt_w == self->order_.w_elem);                         /*@ in_declaration_order */
 
 /* ---- arguments: positionals by index ---- */
 /* the implicit int -> std::size_t conversion of the argument of at(): modular, well defined ([conv.integral]) - spelled without a cast so that
